@@ -1598,6 +1598,11 @@ class Memoer(Tymee):
             logger.error("Invalid Memoer gram from %s.\n %s.", src, ex)
             return True  # did receive data so can try again now
 
+        if mid in self.vids and vid != self.vids[mid]:  # not signer of memo's first gram
+            logger.error("Invalid Memoer gram from %s.\n Signer mismatch for "
+                         "memo %s.", src, mid)
+            return True  # did receive data so can try again now
+
         if mid not in self.rxgs:
             self.rxgs[mid] = dict()
 
